@@ -97,6 +97,8 @@ func c19(c *core.Check) {
 	c19Descriptors(c)
 	c19Ranges(c)
 	c19Copy(c)
+	r10 := c.Rule("R10", "decimal is the last resort for every integer: the automatic range used for decimal (numeric system) has the smallest and the largest integer as constant bounds, so no integer is refused by it", 2)
+	autoRangeRule(c, r10)
 	r1 := c.Rule("R1", "every integer / and % of css/counters has a divisor proven non-zero, and every % whose result indexes a list has a dividend proven non-negative (Go's % keeps the sign of the dividend)", 17)
 	divisionRule(c, r1, inPkgs("css/counters"))
 	// the sign is accounted for in the padding exactly when it is written: both steps test isNegative && useNegative
@@ -134,7 +136,16 @@ func c19(c *core.Check) {
 			nAbs++
 			rem, isRem := call.Call.Args[0].(*ssa.BinOp)
 			bad := isRem && rem.Op == token.REM
-			r1.Cond(!bad, core.FuncName(fn)+" | "+p.StmtTextAt(fn, call.Pos())+" | Abs", p.Pos(call.Pos()), "Abs is applied before the remainder is taken (or not to a remainder)", "Abs is applied to a remainder: for a negative dividend this mirrors the cycle (-1 % 3 gives 1 instead of 2) instead of continuing it")
+			if bad {
+				// digit extraction (the same dividend is also divided by the same modulus: value%L, value/L) is not
+				// a cycle: the digits of a negative number are the negated digits of its absolute value
+				core.Instrs(fn, func(in2 ssa.Instruction) {
+					if q, ok := in2.(*ssa.BinOp); ok && q.Op == token.QUO && q.X == rem.X && q.Y == rem.Y {
+						bad = false
+					}
+				})
+			}
+			r1.Cond(!bad, core.FuncName(fn)+" | "+p.StmtTextAt(fn, call.Pos())+" | Abs", p.Pos(call.Pos()), "Abs is applied before the remainder is taken, not to a remainder, or to a digit (the dividend is also divided by the modulus)", "Abs is applied to a remainder: for a negative dividend this mirrors the cycle (-1 % 3 gives 1 instead of 2) instead of continuing it")
 		})
 	}
 	if n := divLoopRule(c, r1, inPkgs("css/counters")); n < 2 {
